@@ -141,6 +141,28 @@ pub fn gen_acyclic(r: &mut Rng, c: &GenCfg) -> Program {
             }
             have_ts = true;
         }
+        // specify shapes: a maker that conditionally specifies q_spec for its struct (before or
+        // after asking for it itself); a consumer that asks for q_spec through the maker's handle
+        if c.spec && have_ts && creates && spec.is_some_and(|p| p < i) && r.pct(60) {
+            let g = r.usize(NREG) as u8;
+            if r.pct(25) {
+                ops.push(Op::CallSpec { d: r.usize(NREG) as u8, h: 0 });
+            }
+            ops.push(Op::In { d: g, i: r.usize(n_inputs) as u16, f: r.usize(3) as u8 });
+            if r.pct(70) {
+                ops.push(Op::IfSkip { s: g, c: *r.pick(&[Cmp::Eq, Cmp::Ne, Cmp::Lt, Cmp::Ge]), k: r.below(m as u64) as u32, n: 1 });
+            }
+            ops.push(Op::Specify { h: 0, s: g });
+            if r.pct(25) {
+                ops.push(Op::CallSpec { d: r.usize(NREG) as u8, h: 0 });
+            }
+        }
+        if c.spec && !struct_keyed && !makers.is_empty() && spec.is_some_and(|p| p < i) && r.pct(40) {
+            let d = r.usize(NREG) as u8;
+            ops.push(Op::MkCall { d, n: *r.pick(&makers) });
+            have_ts = true;
+            ops.push(Op::CallSpec { d: r.usize(NREG) as u8, h: r.usize(2) as u8 });
+        }
         if c.intern_ops && !c.intern_types.is_empty() && !struct_keyed && r.pct(30) {
             let a = r.usize(NREG) as u8;
             ops.push(Op::In { d: a, i: r.usize(n_inputs) as u16, f: r.usize(3) as u8 });
